@@ -37,6 +37,12 @@ def h_pdu(ctx, cfg, var, twin=False):
         u.pdu_header.pdu_type == 1))
     e, raw2 = call(u.pack)
     ctx.holds("repack identical", e is None and raw2 == raw, exc_name(e))
+    # "not one octet more": the PDU followed by other octets in the buffer (the next PDU of a stream) decodes to the same
+    # offset, metadata and file data, with or without CRC
+    for nt in (1, 4):
+        e, ut = call(FileDataPdu.unpack, ctx.bytes_of(list(b.ref) + items_of(ctx.octets("tail%d" % nt, nt))))
+        ctx.holds("octets after the PDU are not taken as file data",
+                  e is None and sym_and(b.check(ut), ut == pdu, ut.packet_len == len(raw), ut.pack() == raw), exc_name(e))
     earlier_result_survives(ctx, lambda: sym_and(b.check(u), u == pdu, u.packet_len == len(raw), u.pack() == raw,
                                                  u.pdu_header.source_entity_id.value == b.v["src"],
                                                  u.pdu_header.transaction_seq_num.byte_len == b.v["seqw"]),
